@@ -336,8 +336,13 @@ theorem snapshot_axis_index_fault (ae : Err) (axis : List Char) (x y : F) :
 /-- well-formed heap: three-letter axis strings (as `projString`/`DeriveConstants` produce) -/
 def WF (h : Heap F P) : Prop := ∀ i, (h i).axis.length = 3
 
+/-- the datum step's callees do not panic (in the Go code: `datum_params` has 3 resp. 7 entries whenever the
+datum type is 3- resp. 7-parameter, which `getDatum` establishes at parse time) -/
+def DtNoPanic (c : Core F P Err) : Prop := ∀ i j a b z g, c.dt i j a b z ≠ .error (.panic g)
+
 theorem body_no_panic (c : Core F P Err) (s d : Nat) (S D : SR F P) (x y z : F)
-    (hS : S.axis.length = 3) (hD : D.axis.length = 3) (f : Fault) : body c s d S D x y z ≠ .panic f := by
+    (hS : S.axis.length = 3) (hD : D.axis.length = 3) (hdt : DtNoPanic c) (f : Fault) :
+    body c s d S D x y z ≠ .panic f := by
   have hs := (C10_no_index_fault c.axisErr S.axis false x y hS).2.1
   have hd := fun (x y : F) => (C10_no_index_fault c.axisErr D.axis true x y hD).2.1
   unfold body
@@ -352,7 +357,10 @@ theorem body_no_panic (c : Core F P Err) (s d : Nat) (S D : SR F P) (x y z : F)
     split
     · simp
     · split
-      · simp
+      · rename_i e he
+        cases e with
+        | err e => simp [failToRes]
+        | panic g => exact absurd he (hdt _ _ _ _ _ g)
       · split
         · simp
         · rename_i x3 y3 _
@@ -383,7 +391,7 @@ theorem stepNoHop_axis (c : Core F P Err) (h : Heap F P) (s d : Nat) (x y z : F)
     | none => exact ax2 i
 
 theorem stepNoHop_no_panic (c : Core F P Err) (h : Heap F P) (s d : Nat) (x y z : F)
-    (hax : ∀ i, (h i).axis.length = 3) (f : Fault) : (stepNoHop c h s d x y z).2 ≠ .panic f := by
+    (hax : ∀ i, (h i).axis.length = 3) (hdt : DtNoPanic c) (f : Fault) : (stepNoHop c h s d x y z).2 ≠ .panic f := by
   have ax1 := initAt_axis c h hax s
   have ax2 := initAt_axis c _ ax1 d
   unfold stepNoHop
@@ -394,28 +402,30 @@ theorem stepNoHop_no_panic (c : Core F P Err) (h : Heap F P) (s d : Nat) (x y z 
     simp only []
     cases (initAt c (initAt c h s).1 d).2 with
     | some e => simp
-    | none => exact body_no_panic c s d _ _ x y z (ax2 s) (ax2 d) f
+    | none => exact body_no_panic c s d _ _ x y z (ax2 s) (ax2 d) hdt f
 
 theorem dropZ_panic (r : Res3 F Err) (f : Fault) (h : r ≠ .panic f) : dropZ r ≠ .panic f := by
   cases r <;> simp_all [dropZ]
 
 /-- **C10_no_panic** (the transformer side of "never panics"; needs the repaired `adjust_axis`): on a
 well-formed heap no call of any transformer panics — no index fault for any axis order of source or
-dest, and (the first leg being `transform3` itself) no recursion through the WGS84 hop. -/
+dest, and (the first leg being `transform3` itself) no recursion through the WGS84 hop — provided the callees
+of the datum step do not (`DtNoPanic`; since the model carries such a panic as a panic of the call, see
+`C10_datum_panic_is_panic`, the hypothesis is necessary). -/
 theorem C10_no_panic (c : Core F P Err) (wgs : Nat) (h : Heap F P) (tr : Tr) (x y : F) (hw : WF h)
-    (f : Fault) : (step c wgs h tr x y).2.2 ≠ .panic f := by
+    (hdt : DtNoPanic c) (f : Fault) : (step c wgs h tr x y).2.2 ≠ .panic f := by
   unfold step
   by_cases hh : needsHop h tr.src tr.dst = true
   · simp only [hh, if_true]
-    have n1 := stepNoHop_no_panic c h tr.src wgs x y FOps.zero hw
+    have n1 := stepNoHop_no_panic c h tr.src wgs x y FOps.zero hw hdt
     cases hres : (stepNoHop c h tr.src wgs x y FOps.zero).2 with
     | ok a b z =>
       simp only []
-      exact dropZ_panic _ f (stepNoHop_no_panic c _ wgs tr.dst a b z (stepNoHop_axis c h tr.src wgs x y FOps.zero hw) f)
+      exact dropZ_panic _ f (stepNoHop_no_panic c _ wgs tr.dst a b z (stepNoHop_axis c h tr.src wgs x y FOps.zero hw) hdt f)
     | err e => simp [dropZ]
     | panic g => exact absurd hres (n1 g)
   · simp only [hh, Bool.false_eq_true, if_false]
-    exact dropZ_panic _ f (stepNoHop_no_panic c h tr.src tr.dst x y FOps.zero hw f)
+    exact dropZ_panic _ f (stepNoHop_no_panic c h tr.src tr.dst x y FOps.zero hw hdt f)
 
 /-! ### non-vacuity: a concrete instance (also the witness that the snapshot's closure was not pure) -/
 
@@ -449,6 +459,7 @@ def pool : Nat → Tr := fun _ => ⟨0, 1⟩
 
 example : CoreOK core := fun _ => rfl
 example : WF heap := fun _ => rfl
+example : DtNoPanic core := by intro i j a b z g h; cases h
 example : needsHop heap 0 1 = true := by decide
 
 /-- fixed code: the same call twice gives the same answer … -/
@@ -474,7 +485,7 @@ variable {F R Err : Type} [FOps F] [POps F]
 /-- the transformer's `Core` whose `init` is the transcription of the eight Go constructors
 (`Ctors.lean`); the closures and the datum step stay parameters -/
 def ctorCore (inv fwd : Ctor × PF F R → F → F → Except Err (F × F))
-    (dt : Nat → Nat → F → F → F → Except Err (F × F × F)) (axisErr : Err) (errOf : CErr → Err) :
+    (dt : Nat → Nat → F → F → F → Except (Fail Err) (F × F × F)) (axisErr : Err) (errOf : CErr → Err) :
     Core F (Ctor × PF F R) Err where
   init q := ((q.1, (initP q.1 q.2).1), (initP q.1 q.2).2.map errOf)
   inv := inv
@@ -498,7 +509,7 @@ theorem C10_init_frame (c : Ctor) (p : PF F R) :
 
 /-- **C10_CoreOK_ctors**: the hypothesis of `C10_pure` is a theorem for the modelled constructors. -/
 theorem C10_CoreOK_ctors (inv fwd : Ctor × PF F R → F → F → Except Err (F × F))
-    (dt : Nat → Nat → F → F → F → Except Err (F × F × F)) (axisErr : Err) (errOf : CErr → Err) :
+    (dt : Nat → Nat → F → F → F → Except (Fail Err) (F × F × F)) (axisErr : Err) (errOf : CErr → Err) :
     CoreOK (ctorCore inv fwd dt axisErr errOf) := by
   intro q
   obtain ⟨c, p⟩ := q
@@ -508,7 +519,7 @@ theorem C10_CoreOK_ctors (inv fwd : Ctor × PF F R → F → F → Except Err (F
 transcribed constructors, any closures `inv`/`fwd` reading the initialised SR, any datum step, any heap,
 pool and history, every answer equals the freshly built transformer's. -/
 theorem C10_pure_ctors (inv fwd : Ctor × PF F R → F → F → Except Err (F × F))
-    (dt : Nat → Nat → F → F → F → Except Err (F × F × F)) (axisErr : Err) (errOf : CErr → Err)
+    (dt : Nat → Nat → F → F → F → Except (Fail Err) (F × F × F)) (axisErr : Err) (errOf : CErr → Err)
     (wgs : Nat) (h0 : Heap F (Ctor × PF F R)) (pool : Nat → Tr) (hist : List (Nat × F × F)) :
     Spec.HistoryIndependent
       (runHist (ctorCore inv fwd dt axisErr errOf) wgs { heap := h0, pool := pool } hist).2
